@@ -113,6 +113,7 @@ func c04Vers[V univers.Version[V], VR univers.VersionRange[V]](e univers.Ecosyst
 	}
 	pp, ep := e.NewVersion(probe)
 	vv.Assume(ep == nil)
+	vv.Reached()
 	c12, c23 := -1, -1
 	if k >= 2 {
 		c12 = pv[0].Compare(pv[1])
@@ -133,7 +134,7 @@ func c04Vers[V univers.Version[V], VR univers.VersionRange[V]](e univers.Ecosyst
 		c[i] = sign(pp.Compare(pv[i]))
 	}
 	vv.Assume(!vv.Known("KF-C04-grouping-heuristics", c04BadGrouping(ol)))
-	vv.Assume(!vv.Known("KF-C02-npm-x-in-bound", c02NpmX(e.Name(), v1+v2+v3)))
+	vv.Assume(!vv.Known("KF-C02-x-in-bound", c02NpmX(e.Name(), v1+v2+v3)))
 	got, err := vers.Contains(text, probe)
 	vv.Assert(err == nil, "C04: well-formed VERS range with valid versions is rejected")
 	vv.Assume(err == nil)
@@ -205,6 +206,7 @@ func c16Inv[V univers.Version[V], VR univers.VersionRange[V]](e univers.Ecosyste
 			vv.Assume(pv[i].Compare(pv[j]) != 0)
 		}
 	}
+	vv.Reached()
 	base := "vers:" + scheme + "/" + strings.Join(parts, "|")
 	var tparts []string
 	f := strings.Split(tr, ":")
@@ -412,7 +414,8 @@ func c17Route[V univers.Version[V], VR univers.VersionRange[V]](e univers.Ecosys
 	vv.Assert((err == nil) == (ea == nil && ev == nil), "C17: scheme is not evaluated with its ecosystem's notion of a valid version")
 	vv.Assume(ea == nil)
 	vv.Assume(ev == nil)
+	vv.Reached()
 	vv.Assume(err == nil)
-	vv.Assume(!vv.Known("KF-C02-npm-x-in-bound", c02NpmX(e.Name(), a)))
+	vv.Assume(!vv.Known("KF-C02-x-in-bound", c02NpmX(e.Name(), a)))
 	vv.Assert(ok == opSem(op, pv.Compare(pa)), "C17: scheme is not evaluated with its ecosystem's order")
 }
